@@ -470,6 +470,13 @@ def step (_ : Unit) (ws : List String) : Unit × String :=
           let e := Spec.dialDemand op.c.ssl d.2.host.name d.2.cert
           s!"{d.1} wrapped={bit e.wrapped} proceeded={bit e.proceeded}"))
     | none => "bad-op"
+  -- credentials never show up in what the driver logs or reports (monitor evaluated by the harness on the logger
+  -- output and the text of the returned error; C20_credentials_noninterference: nothing but the token depends on them)
+  | "noleak" :: m :: h :: st :: pv :: fs => match parseConn h st pv, fs.mapM parseFrame with
+    | some (h, cfg), some fs =>
+      if m != "ns" && m != "cx" then "bad-op"
+      else if (connect cfg h fs).outcome = .crash then "crash:authenticateHandshake" else "clean"
+    | _, _ => "bad-op"
   -- C20_session_config: both Authenticator and AuthProvider ⇒ refused before anything is dialled
   | "sesscfg" :: h :: st :: pv :: fs => match parseConn h st pv, fs.mapM parseFrame with
     | some (_, cfg), some _ =>
